@@ -181,13 +181,13 @@ def is_message_frame(fr, sm):
 def fanout(S0, S1, who, sm):
     """every connection c with who(c) gets exactly one more frame, message(sm);
     every other connection's outbox is unchanged"""
-    def per_conn(cn):
-        n = S0.out_len[cn]
-        fr = S1.out_buf[cn][n]
-        got = And(S1.out_len[cn] == n + 1, S1.out_buf[cn] == Store(S0.out_buf[cn], n, fr), is_message_frame(fr, sm))
-        same = And(S1.out_len[cn] == n, S1.out_buf[cn] == S0.out_buf[cn])
-        return If(who(cn), got, same)
-    return FA([INT], per_conn, pats=lambda cn: [S1.out_len[cn]])
+    from .outbox import prefix_kept
+    return And(
+        FA([INT], lambda cn: S1.out_len[cn] == S0.out_len[cn] + If(who(cn), 1, 0), pats=lambda cn: [S1.out_len[cn]]),
+        FA([INT, INT], lambda cn, i: Implies(And(0 <= i, i < S0.out_len[cn]), S1.out_buf[cn][i] == S0.out_buf[cn][i]),
+           pats=lambda cn, i: [S1.out_buf[cn][i]]),
+        FA([INT], lambda cn: Implies(who(cn), is_message_frame(S1.out_buf[cn][S0.out_len[cn]], sm)),
+           pats=lambda cn: [S1.out_len[cn]]))
 
 
 c = contract("server.Mailbox.broadcast_message", cls="Mailbox", params={"sm": "sm"}, modifies=["out"],
